@@ -99,8 +99,17 @@ def r2_resolvability(chk: Check) -> None:
     if comp is None:
         chk.undecided("C10.R2", inner, "parameter kwargs comprehension", "not found", inner.loc())
     else:
-        conds = " and ".join(unparse(c, 300) for g in comp.generators for c in g.ifs)
-        cond_names = {x for g in comp.generators for c in g.ifs for x in names_in(c)}
+        cj = [x for g in comp.generators for c in g.ifs for x in expand_conjuncts(P, inner, c)]
+        conds = " and ".join(unparse(c, 300) for c in cj)
+        cond_names = {x for c in cj for x in names_in(c)}
+        # truthiness of the link value itself: `... and extracted.value.ok()` drops 0 / False / "" / [] although they are
+        # perfectly resolvable values
+        vtext = unparse(comp.value, 200)
+        truthy = [c for c in cj if unparse(strip_not(c)[0], 200) == vtext]
+        if truthy:
+            chk.violation("C10.R2", inner, "link values are filtered by identity (None / UNRESOLVABLE), never by truthiness", f"the conjunct `{unparse(truthy[0], 60)}` drops every falsy but resolvable value (an id 0, a flag false, an empty string): the derived request carries a generated value instead of the one the link denotes", inner.loc(comp))
+        else:
+            chk.ok("C10.R2", inner, "link values are filtered by identity (None / UNRESOLVABLE), never by truthiness", "", inner.loc(comp))
         if "Ok" not in cond_names and "Err" not in cond_names:
             chk.violation("C10.R2", inner, "parameter used only if isinstance(extracted.value, Ok)", "the comprehension no longer tests the Result kind: `.ok()` of a failed extraction is dereferenced / sent", inner.loc(comp))
         else:
@@ -108,16 +117,18 @@ def r2_resolvability(chk: Check) -> None:
         if "UNRESOLVABLE" not in cond_names:
             chk.violation("C10.R2", inner, "parameter used only if not UNRESOLVABLE", "the comprehension no longer compares with UNRESOLVABLE: the sentinel of an unresolvable expression is sent as the parameter value", inner.loc(comp))
         else:
-            chk.expect("UNRESOLVABLE" in conds and "not in" in conds, "C10.R2", inner, "parameter used only if not UNRESOLVABLE", "an unresolvable extraction result is sent as the parameter value", inner.loc(comp))
+            chk.expect("UNRESOLVABLE" in conds and ("not in" in conds or "is not UNRESOLVABLE" in conds), "C10.R2", inner, "parameter used only if not UNRESOLVABLE", "an unresolvable extraction result is sent as the parameter value", inner.loc(comp))
     trv = defined_by(inner, "$v = link.extract($_)") or defined_by(inner, "$v = $_.extract($_)")
     if not trv:
         raise Undecided("`transition = link.extract(output)` not found in into_step_input")
     T = trv[0]
     for n in walk_body(inner.node):
         if isinstance(n, ast.If) and f"{T}.request_body" in unparse(n.test, 600):
-            t = unparse(n.test, 600).replace(f"{T}.", "transition.")
+            cjb = expand_conjuncts(P, inner, n.test)
+            t = " and ".join(unparse(c, 300) for c in cjb).replace(f"{T}.", "transition.")
             which = "merge" if "link.merge_body" in t and "not link.merge_body" not in t else "replace"
-            if "UNRESOLVABLE" not in names_in(n.test) or "Ok" not in names_in(n.test):
+            tn = {x for c in cjb for x in names_in(c)}
+            if "UNRESOLVABLE" not in tn or "Ok" not in tn:
                 chk.violation("C10.R2", inner, f"request body ({which}) used only if Ok and not UNRESOLVABLE", f"guard `{t[:120]}` no longer tests Ok / UNRESOLVABLE: an unresolved or failed body is sent", inner.loc(n))
                 continue
             chk.expect("isinstance(transition.request_body.value, Ok)" in t and "is not UNRESOLVABLE" in t and "is not None" in t, "C10.R2", inner,
